@@ -417,7 +417,7 @@ class Frame:
                     cond = self.ev(p)
             if self.ip.assume_schema is not None and pre:
                 from . import rowmap
-                r = rowmap._schema_cmp(pre[-1], self.ip.enum_order)
+                r = rowmap._schema_cmp(pre[-1], self.ip.enum_order, self.func)
                 if r is not None:
                     op, idx = r
                     v = self.ip.assume_schema
@@ -429,11 +429,22 @@ class Frame:
             self.env = base.copy()
             self.cond_stack.append(cond)
             self.ip.cond_path.append(cond)
+            # `if (x == Enum::label)` selects like a one-label switch arm (an if-chain over a discriminator
+            # is the same decision as `switch (x) { case label: ... }`)
+            sel = self._enum_equality(pre[-1]) if pre else None
+            if sel is not None and sel[0] == '==':
+                self.guards.append((sel[1], (sel[2],)))
             r1 = self.stmt(body[0])
+            if sel is not None and sel[0] == '==':
+                self.guards.pop()
             e1 = self.env
             self.env = base.copy()
             self.ip.cond_path[-1] = ('op', '!', (cond,))
+            if sel is not None and sel[0] == '!=' and has_else:
+                self.guards.append((sel[1], (sel[2],)))
             r2 = self.stmt(body[1]) if has_else else True
+            if sel is not None and sel[0] == '!=' and has_else:
+                self.guards.pop()
             self.cond_stack.pop()
             self.ip.cond_path.pop()
             e2 = self.env
@@ -584,6 +595,23 @@ class Frame:
         results.append((base.copy(), True))
         self.env = self._merge(base, results, None)
         return True
+
+    def _enum_equality(self, cond):
+        """(op, term of the tested expression, enumerator name) for `E == Enum::x` / `E != Enum::x`."""
+        n = strip(cond, explicit=True)
+        if n.get('kind') != 'BinaryOperator' or n.get('opcode') not in ('==', '!='):
+            return None
+        a, b = children(n)
+
+        def label(x):
+            x = strip(x, explicit=True)
+            if x.get('kind') == 'DeclRefExpr' and (x.get('referencedDecl') or {}).get('kind') == 'EnumConstantDecl':
+                return x['referencedDecl']['name']
+            return None
+        la, lb = label(a), label(b)
+        if (la is None) == (lb is None):
+            return None
+        return (n['opcode'], self.ev(b if la is not None else a), la if la is not None else lb)
 
     def _ends_with_break(self, st):
         if st.get('kind') == 'BreakStmt':
@@ -928,6 +956,25 @@ class Frame:
             if name == 'value_or' and len(args) == 1:
                 return phi([recv, self.ev(args[0])])
             return ('op', name or '?', (recv,) + tuple(self.ev(a) for a in args))
+        if (e is None or not e.targets) and name in ('transform', 'copy', 'copy_if', 'copy_n', 'move') \
+                and len(args) >= 3:
+            # std algorithm writing through an insert iterator: dst gains f(element of src)
+            outn = strip(args[2])
+            while outn.get('kind') in ('MaterializeTemporaryExpr', 'CXXBindTemporaryExpr', 'ExprWithCleanups',
+                                       'CXXConstructExpr') and len(children(outn)) == 1:
+                outn = strip(children(outn)[0])
+            oc = children(outn)
+            if outn.get('kind') == 'CallExpr' and oc and \
+                    (strip(oc[0]).get('referencedDecl') or {}).get('name') in ('back_inserter', 'inserter',
+                                                                                'front_inserter') and len(oc) >= 2:
+                src_elem = self._elem(self.ev(args[0]))
+                newv = src_elem
+                if name == 'transform' and len(args) >= 4:
+                    newv = self.apply_lambda(args[3], [src_elem])
+                elif name == 'copy_if' and len(args) >= 4:
+                    self.apply_lambda(args[3], [src_elem])
+                self.assign(oc[1], ('vec', phi([self._elem(self.ev(oc[1])), newv])))
+                return UNK
         if e is None or not e.targets:
             vs = tuple(self.ev(a) for a in args if a.get('kind') != 'CXXDefaultArgExpr')
             if name in TRANSPARENT_CALLS and len(vs) >= 1:
@@ -1086,6 +1133,36 @@ class Frame:
                 self.sink(s.sink, outs)
             return UNK
         return UNK
+
+    def apply_lambda(self, fn, argv):
+        """Value of calling the lambda expression fn on argv (body interpreted in place); an opaque
+        application term when fn is not a lambda expression."""
+        n = strip(fn)
+        while n.get('kind') in ('MaterializeTemporaryExpr', 'CXXBindTemporaryExpr', 'ExprWithCleanups',
+                                'CXXFunctionalCastExpr', 'CXXConstructExpr') and len(children(n)) == 1:
+            n = strip(children(n)[0])
+        if n.get('kind') != 'LambdaExpr':
+            return ('op', 'apply', (self.ev(fn),) + tuple(argv))
+        params, body = [], None
+        for c in children(n):
+            if c.get('kind') == 'CXXRecordDecl':
+                for m in children(c):
+                    if m.get('kind') == 'CXXMethodDecl' and m.get('name') == 'operator()':
+                        params = [p for p in children(m) if p.get('kind') == 'ParmVarDecl']
+            elif c.get('kind') == 'CompoundStmt':
+                body = c
+        for p, o in zip(params, argv):
+            self.env.vars[p['id']] = o
+        if body is None:
+            return ('op', 'apply', tuple(argv))
+        saved = self.rets
+        self.rets = []
+        self.stmt(body)
+        rets = self.rets
+        self.rets = saved
+        if not rets:
+            return ('op', 'apply', tuple(argv))
+        return rets[0] if len(rets) == 1 else phi(rets)
 
     def sink(self, sink, outs):
         n = strip(sink)
